@@ -26,7 +26,8 @@ I63, U64 = 2**63, 2**64
 VALS = {"nat": [0, 1, 2, 7, 2**31, 2**32 + 1, 2**53, 2**53 + 1, 2**63 - 1, 2**63, 2**64 - 1, 2**64 - 1025],
         "int": [0, 1, -1, 7, -7, 2**31, -(2**31), 2**53 + 1, -(2**53) - 1, 2**62 + 1, 2**63 - 1, -(2**63),
                 9007199254740993, -9007199254740993]}
-HDR = "from guppylang import guppy\nfrom guppylang.std.builtins import result, nat\n\n"
+HDR = ("from guppylang import guppy\nfrom guppylang.std.builtins import result, nat\n"
+       "from guppylang.std.platform import _result_nat\n\n")
 
 
 def plan(tier, seed):
@@ -95,7 +96,8 @@ def run_case(ctx, rng, idx, params, tier):
         for v in vs:
             if exp == "int" and not -I63 <= v < I63:
                 continue  # not representable in the target: not value-checked
-            calls.append(f'    result("r", {name}({v}))')
+            rf = "_result_nat" if exp == "nat" else "result"  # `result` reports nats via its int variant
+            calls.append(f'    {rf}("r", {name}({v}))')
             plan_.append((name, ck, act, exp, v))
     # comparison operands: the narrower operand (either side) is widened to the other's type; the
     # outcome must be Python's for equal and neighbouring values (nat vs negative int excluded:
@@ -136,8 +138,6 @@ def run_case(ctx, rng, idx, params, tier):
                 ok = isinstance(got, float) and struct.pack(">d", got) == struct.pack(">d", e)
             else:
                 e = v
-                if exp == "nat" and isinstance(got, int) and got < 0:
-                    got += U64
                 ok = got == e
             vc = "big" if abs(v) > 2**53 else "small"
             cells.add(f"{ck}:{act}->{exp}:value-{vc}")
